@@ -1335,8 +1335,8 @@ struct Explorer {
         }
       }
     }
-    // a following build re-creates everything
-    if (!op.tool_dry && r.exit_code == 0) {
+    // a following build re-creates everything (where the project builds at all: not with a dyndep file the build refuses)
+    if (!op.tool_dry && r.exit_code == 0 && !sc.tags.count("invalid-dyndep")) {
       vfs::Disk d2 = after;
       RunConfig cfg;
       cfg.args = {"-j1"};
